@@ -237,8 +237,31 @@ def project_views(src: Path, build: Path, setup_result: projgen.SetupResult, p: 
     v['bs_missing'] = [mp.srcrel(x) for x in bs if not os.path.exists(x)]
     v['has_ninja'] = (build / 'build.ninja').exists()
     regen = []
+    v['M'] = {'rules': [], 'dup_rules': [], 'pools': [], 'edges': [], 'edge_pools': [], 'defaults': [], 'errors': []}
     if v['has_ninja']:
+        import shlex
         man = ninja_ref.parse_file(build / 'build.ninja')
+        # the manifest with every path in the same normal form as the views, and each statement flagged `cc`
+        # when its command starts with a compiler command line that intro-targets.json names ("compiler" key)
+        compilers = set()
+        for t in read_json(info / 'intro-targets.json'):
+            for blk in t['target_sources']:
+                if 'sources' in blk and blk.get('language') != 'unknown' and blk.get('compiler'):
+                    compilers.add(tuple(blk['compiler']))
+        M = man.to_json()
+        for ej, e in zip(M['edges'], man.edges):
+            for k in ('ins', 'imp', 'ord', 'outs', 'iouts'):
+                ej[k] = [mp.path(q) for q in ej[k]]
+            cc = False
+            if not e.is_phony and compilers:
+                try:
+                    argv = shlex.split(e.command)
+                except (ValueError, ninja_ref.NinjaSyntaxError):
+                    argv = []
+                cc = any(tuple(argv[:len(c)]) == c for c in compilers)
+            ej['cc'] = cc
+        M['defaults'] = [mp.path(q) for q in M['defaults']]
+        v['M'] = M
         for e in man.edges:
             if 'build.ninja' in e.outs:
                 for q in e.ins:
